@@ -21,6 +21,11 @@ let open_file p (fs : string) =
   Printf.printf "%s | SPEC %s\n" r s
 let () = iter_lines (fun line ->
   match split_ws line with
+  | ["O"; pt; _; _; hex] when String.length pt > 0 && pt.[0] = 'L' ->
+      (* options set after zck_read_lead are never compared: the open behaves as without pins *)
+      open_file no_pins (string_of_hex hex)
+  | ["P"; pt; _; _] when String.length pt > 0 && pt.[0] = 'L' ->
+      cur_pins := no_pins; print_endline "PINS | SPEC -"
   | ["O"; pt; pd; ps; hex] ->
       let p = { p_type = opt n_of_string pt; p_digest = opt bytes_of_hex pd; p_size = opt n_of_string ps } in
       open_file p (string_of_hex hex)
